@@ -464,7 +464,7 @@ def run_miri_slice(prop, tier, seed, cfg):
             flags += " -Zmiri-preemption-rate=%s" % ("0.1" if i % 2 else "0.01")
         cmd, env = miri_cmd(cfg["bin"], args, seed=seed * 1000 + i, extra_flags=flags)
         jobs.append((cmd, env))
-    timeout = m.get("timeout", 900)
+    timeout = m.get("timeout", 1500)
     tm0 = time.time()
     with ThreadPoolExecutor(max_workers=NSHARDS) as ex:
         results = list(ex.map(lambda j: run_proc(j[0], j[1], timeout), jobs))
